@@ -52,6 +52,14 @@ def _species(rng):
         order = rng.choice([1, 1, 1, 2])
         species.append((">", dlabels[k], order))
         species.append(("<", dlabels[k], order))
+        if rng.random() < 0.3:
+            # the same label again with the other bond order: only equal orders are complementary
+            species.append((">", dlabels[k], 3 - order))
+            species.append(("<", dlabels[k], 3 - order))
+    if species and rng.random() < 0.2:
+        kind, label, order = rng.choice([s for s in species if s[0] == "$"] or species)
+        if kind == "$":
+            species.append(("$", label, 3 - order))
     return species
 
 
